@@ -1,4 +1,4 @@
-\* the code as it is (open finding C06-O12: RequeueNewTs): every clause but Order holds, and Order fails only
+\* thorough: the code as it is (open finding C06-O12: RequeueNewTs): every clause but Order holds, and Order fails only
 \* for a request that was pushed back after a blocked attempt (OrderKF) - any other violation still surfaces
 CONSTANTS
   Req = {"r1", "r2", "r3"}
